@@ -129,9 +129,13 @@ func discharge(obls []*Obligation, dir string, secs, workers int) {
 		return n
 	}
 	if reset() > 0 {
-		dischargeStage(obls, dir, secs, workers, nil)
+		s2 := secs
+		if !havePriority(obls) && s2 > 12 {
+			s2 = 12 // baseline / development runs: anything slower than this is not claimed anyway
+		}
+		dischargeStage(obls, dir, s2, workers, nil)
 	}
-	if reset() > 0 {
+	if havePriority(obls) && reset() > 0 {
 		dischargeStage(obls, dir, secs*3, 2, nil)
 	}
 }
